@@ -182,7 +182,8 @@ def analyse_tu(eng, cfg):
     nfun = 0
     for f in irrules.maximal_roots(eng):
         # only functions that can reach an allocation are interesting
-        if 'ALLOC' not in eng.oracle.effects.get(f.name, ()):
+        eff = eng.oracle.effects.get(f.name, ())
+        if 'ALLOC' not in eff and 'DEALLOC' not in eff:
             continue
         nfun += 1
         eng.walk(f, [rule])
